@@ -1000,11 +1000,13 @@ class ThermFault(Therm):
     symbolic fault bits"""
     numElements = 3
 
-    def __init__(self, ctx, faults):
-        super().__init__(ctx); self.faults = list(faults); self.calls = 0
+    def __init__(self, ctx, faults, phases=None):
+        super().__init__(ctx); self.faults = list(faults); self.calls = 0; self.phases = phases
 
     def impingementFactor(self, x, T, precPhase=None, removeCache=False, searchDir=None):
-        j = self.calls; self.calls += 1
+        # fault bit of the phase asked for (model level) or of the n-th call (function level: one call per point)
+        j = self.phases.index(precPhase) if self.phases is not None else self.calls
+        self.calls += 1
         if j < len(self.faults) and bool(self.faults[j]):
             return None
         return super().impingementFactor(x, T, precPhase, removeCache, searchDir)
@@ -1056,13 +1058,13 @@ def beta_fault(ctx, site="bulk", n=2):
 
 def model_fault(ctx, kinds=("bulk", "grain boundaries")):
     """model step (real _calcNucleationRate, multicomponent branch) with a backend whose impingementFactor fails for the
-    phases selected by symbolic fault bits: such a phase is recorded with impingement 0 and nucleation rate 0 (nothing
-    non-finite in the record); the other phases are recorded with rate >= 0"""
+    phases selected by symbolic fault bits: such a phase is recorded with nucleation rate 0 (nothing non-finite in the
+    record); the other phases are recorded with rate >= 0"""
     P = len(kinds)
     phases = ["P%d" % i for i in range(P)]
     m = PrecipitateModel(phases=phases, elements=["A", "B"])
     faults = [ctx.boolean("fault%d" % i) for i in range(P)]
-    m.therm = ThermFault(ctx, faults); m.removeCache = False
+    m.therm = ThermFault(ctx, faults, phases); m.removeCache = False
     m.matrixParameters.volume.setVolume(pos(ctx, "a", (0.5, 1.5)), "a", 4)
     m.matrixParameters.theta = pos(ctx, "theta", (1.0, 13.0))
     T = pos(ctx, "T", (1e22, 1e23))
@@ -1092,7 +1094,7 @@ def model_fault(ctx, kinds=("bulk", "grain boundaries")):
             ctx.assume(arr[0, i] >= 0)
         setattr(Y, nm, arr)
     xpsd = [np.zeros(2) for _ in range(P)]
-    name = "failed impingement calculation: recorded impingement and nucleation rate are 0, nothing non-finite"
+    name = "failed impingement calculation: recorded nucleation rate is 0, nothing non-finite in the record"
     try:
         PrecipitateBase._calcNucleationRate(m, t, xpsd, Y)
     except (_core.VkError, TypeError):
@@ -1104,11 +1106,14 @@ def model_fault(ctx, kinds=("bulk", "grain boundaries")):
     finite = True
     if ctx.mode == "concrete":
         finite = all(math.isfinite(float(v)) for v in rec)
-    ctx.prove(name, ctx.all([finite] + [ctx.all([ctx.eq(sc(Y.nucRate[0, i]), 0.0), ctx.eq(sc(Y.impingement[0, i]), 0.0)]) for i in range(P) if fl[i]]))
+    dgs = [sc(Y.drivingForce[0, i]) for i in range(P)]
+    # a phase whose impingement calculation failed nucleates nothing on this step (with a negative driving force the
+    # backend is not even asked)
+    ctx.prove(name, ctx.all([finite] + [ctx.eq(sc(Y.nucRate[0, i]), 0.0) for i in range(P) if fl[i]]))
     for i in range(P):
         if not fl[i]:
-            ctx.prove("failed impingement calculation: other phases recorded with rate >= 0 and impingement > 0",
-                      ctx.all([ctx.le(0.0, sc(Y.nucRate[0, i])), ctx.lt(0.0, sc(Y.impingement[0, i]))]))
+            ctx.prove("failed impingement calculation: other phases unaffected (positive driving force: impingement > 0, rate >= 0)",
+                      ctx.implies(dgs[i] > 0, ctx.all([ctx.le(0.0, sc(Y.nucRate[0, i])), ctx.lt(0.0, sc(Y.impingement[0, i]))])))
 
 
 class ThermBinary(ThermDG):
